@@ -48,6 +48,50 @@ theorem late_subscriber_gets_suffix (cap : Nat) (ls : List (PLabel α)) (s : Pip
     (s.node c).out <+: ((s.node (s.node c).parent).out).drop (s.node c).attachedAt :=
   ⟨(s.node c).q, stage_exact cap ls s h c h1 h2 hd⟩
 
+/-- **a subscriber created while events are in flight** (any interleaving before and after): take any run, attach a
+subscription to the controller's publisher, continue with any run. Once the controller's own buffer is drained, what
+the new subscriber has read or still holds in its buffer is `published.drop k` for some `k` that is at most the number
+of events published *before* Subscribe returned — so it ENDS with every event published after Subscribe returned
+(and may begin with events that were in flight at that moment). This is the rule the tree engine applies to a
+subscriber created inside a burst. -/
+theorem attached_gets_later_publications (cap : Nat) (pre post : List (PLabel α)) (isPub : Bool) (s1 s : Pipe α)
+    (h1 : (Pipe.init cap).run pre = some s1) (h2 : (s1.step (.attach 0 isPub)).run post = some s)
+    (hq : (s.node 0).q = []) (hd0 : (s.node 0).dropped = false) (hdc : (s.node s1.len).dropped = false) :
+    (∃ k, k ≤ s1.published.length ∧ (s.node s1.len).out ++ (s.node s1.len).q = s.published.drop k) ∧
+    (s.published.drop s1.published.length) <:+ ((s.node s1.len).out ++ (s.node s1.len).q) := by
+  have hi1 := pinv_run _ pre s1 (pinv_init cap) h1
+  have hen : s1.enabled (.attach 0 isPub) = true := by
+    simp [Pipe.enabled, hi1.len_pos, hi1.root_pub]
+  have hi2 := pinv_step s1 _ hi1 hen
+  have hi := pinv_run _ post s hi2 h2
+  have hlen2 : (s1.step (.attach 0 isPub)).len = s1.len + 1 := rfl
+  obtain ⟨hle, hpar, hatt, _⟩ := run_static _ post s h2 s1.len (by rw [hlen2]; omega)
+  have hpar' : (s.node s1.len).parent = 0 := by rw [hpar]; simp [Pipe.step]
+  have hatt' : (s.node s1.len).attachedAt = (s1.node 0).out.length := by rw [hatt]; simp [Pipe.step]
+  have hex := hi.exact s1.len hi1.len_pos (by rw [hlen2] at hle; omega) hdc
+  rw [hpar', hatt'] at hex
+  have hroot := hi.root_exact hd0
+  rw [hq, List.append_nil] at hroot
+  rw [hroot] at hex
+  have hk : (s1.node 0).out.length ≤ s1.published.length := by
+    have := hi1.root_sub.length_le
+    simp only [List.length_append] at this
+    omega
+  refine ⟨⟨_, hk, hex⟩, ?_⟩
+  rw [hex]
+  have : s.published.drop s1.published.length
+      = (s.published.drop (s1.node 0).out.length).drop (s1.published.length - (s1.node 0).out.length) := by
+    rw [List.drop_drop]; congr 1; omega
+  rw [this]
+  exact List.drop_suffix _ _
+
+/-- non-vacuity: one event in flight when the subscription is created, one published afterwards; the controller's
+buffer drained; the new subscriber holds both -/
+example : ∃ s1 s, (Pipe.init 4 : Pipe Nat).run [.publish 1] = some s1 ∧
+    (s1.step (.attach 0 false)).run [.publish 2, .forward 0, .forward 0] = some s ∧
+    (s.node 0).q = [] ∧ (s.node 0).dropped = false ∧ (s.node s1.len).dropped = false ∧ (s.node s1.len).q = [1, 2] :=
+  ⟨_, _, rfl, rfl, by decide, by decide, by decide, by decide⟩
+
 /-- the controller's own stage: read + buffered = published -/
 theorem root_exact (cap : Nat) (ls : List (PLabel α)) (s : Pipe α) (h : (Pipe.init cap).run ls = some s)
     (hd : (s.node 0).dropped = false) : (s.node 0).out ++ (s.node 0).q = s.published :=
@@ -199,3 +243,4 @@ end KC.C05
 #print axioms KC.C05.code_capacity_positive
 #print axioms KC.C05.controller_stream_is_cache_history
 #print axioms KC.C05.swapped_updates_ill_formed
+#print axioms KC.C05.attached_gets_later_publications
